@@ -6167,6 +6167,9 @@ func (t *Terminal) Loop() error {
 		}
 		t.mutex.Unlock() // Must be unlocked before touching reqBox
 
+		if newCommand != nil {
+			verifTrace("term.reload", verifFlags(reloadSync, changed), 0, newCommand.command)
+		}
 		if reload {
 			// The coordinator may not have consumed the previous request yet.
 			// Carry over what it asked for instead of overwriting it.
